@@ -54,6 +54,83 @@ type engineCtx struct {
 	direct    map[[2]int]bool
 }
 
+// planGroup plans a top-level units unit (stop group): every member on vehicle v at
+// places drawn from the R numbers, member moves built on the current state without
+// estimates, combined into a units move (verif hook) and executed.
+func (c *engineCtx) planGroup(id string, step int, sol nextroute.Solution, group nextroute.SolutionPlanUnitsUnit, fs []string) {
+	atoi := func(s string) int { i, _ := strconv.Atoi(s); return i }
+	vehicles := sol.Vehicles()
+	v := atoi(fs[1]) % len(vehicles)
+	route := vehicles[v].SolutionStops()
+	L := len(route)
+	var moves nextroute.SolutionMoves
+	off := 3
+	for _, mu := range group.SolutionPlanUnits() {
+		member, ok := mu.(nextroute.SolutionPlanStopsUnit)
+		if !ok {
+			fmt.Fprintf(out, "%s %d result noop\n", id, step)
+			return
+		}
+		orders := c.orders[unitKey(member.ModelPlanUnit())]
+		if len(orders) == 0 {
+			fmt.Fprintf(out, "%s %d result noop\n", id, step)
+			return
+		}
+		order := orders[atoi(fs[2])%len(orders)]
+		gaps := make([]int, len(order))
+		for i := range order {
+			gaps[i] = 1 + atoi(fs[off+i])%(L-1)
+		}
+		off += len(order)
+		sort.Ints(gaps)
+		for i := 0; i+1 < len(order); i++ {
+			if c.direct[[2]int{order[i], order[i+1]}] {
+				gaps[i+1] = gaps[i]
+			}
+		}
+		for _, g := range gaps {
+			if c.direct[[2]int{route[g-1].ModelStop().Index(), route[g].ModelStop().Index()}] {
+				fmt.Fprintf(out, "%s %d result noop\n", id, step)
+				return
+			}
+		}
+		args := make([]string, 0, 2*len(order))
+		for i, s := range order {
+			args = append(args, strconv.Itoa(s), strconv.Itoa(gaps[i]))
+		}
+		unit, sp, err := c.buildPositions(sol, v, args)
+		if err != nil {
+			fmt.Fprintf(out, "%s %d result badop\n", id, step)
+			return
+		}
+		mv, err := nextroute.VerifNewMoveStopsUnchecked(unit, sp)
+		if err != nil {
+			fmt.Fprintf(out, "%s %d result moveerror\n", id, step)
+			return
+		}
+		moves = append(moves, mv)
+	}
+	ok, err := nextroute.VerifNewMoveUnits(group, moves).Execute(context.Background())
+	switch {
+	case err != nil:
+		fmt.Fprintf(out, "%s %d result error\n", id, step)
+	case ok:
+		fmt.Fprintf(out, "%s %d result done\n", id, step)
+	default:
+		fmt.Fprintf(out, "%s %d result notdone\n", id, step)
+	}
+}
+
+// top-level unit with the given key in a collection
+func findTop(coll nextroute.ImmutableSolutionPlanUnitCollection, key int) nextroute.SolutionPlanUnit {
+	for _, u := range coll.SolutionPlanUnits() {
+		if unitKey(u.ModelPlanUnit()) == key {
+			return u
+		}
+	}
+	return nil
+}
+
 // resolve a relative plan op: RU RV RO R1..Rk -> vehicle, "s g s g ..." args
 func (c *engineCtx) resolvePlan(sol nextroute.Solution, fs []string) (int, []string, bool) {
 	atoi := func(s string) int { i, _ := strconv.Atoi(s); return i }
@@ -385,7 +462,9 @@ func (u *userCons) value(s nextroute.SolutionStop) float64 {
 
 type userStopCons struct{ userCons }
 
-func (u *userStopCons) DoesStopHaveViolations(s nextroute.SolutionStop) bool { return u.value(s) > u.max }
+func (u *userStopCons) DoesStopHaveViolations(s nextroute.SolutionStop) bool {
+	return u.value(s) > u.max
+}
 
 type userVehicleCons struct{ userCons }
 
@@ -497,6 +576,20 @@ func runEngine(b block) {
 		case "op":
 			sol := c.solutions[c.cur]
 			if fs[1] == "planr" || fs[1] == "plancr" {
+				var ukeys []int
+				for _, u := range sol.UnPlannedPlanUnits().SolutionPlanUnits() {
+					ukeys = append(ukeys, unitKey(u.ModelPlanUnit()))
+				}
+				sort.Ints(ukeys)
+				if len(ukeys) > 0 {
+					r0, _ := strconv.Atoi(fs[2])
+					if g, isGroup := findTop(sol.UnPlannedPlanUnits(), ukeys[r0%len(ukeys)]).(nextroute.SolutionPlanUnitsUnit); isGroup {
+						c.planGroup(b.id, step, sol, g, fs[2:])
+						c.snapshot(step, sol)
+						step++
+						continue
+					}
+				}
 				v, args, ok := c.resolvePlan(sol, fs[2:])
 				if !ok {
 					fmt.Fprintf(out, "%s %d result noop\n", b.id, step)
@@ -523,7 +616,60 @@ func runEngine(b block) {
 					continue
 				}
 				r, _ := strconv.Atoi(fs[2])
+				top := findTop(sol.PlannedPlanUnits(), keys[r%len(keys)])
+				if g, isGroup := top.(nextroute.SolutionPlanUnitsUnit); isGroup {
+					ok, err := g.UnPlan()
+					switch {
+					case err != nil:
+						fmt.Fprintf(out, "%s %d result error\n", b.id, step)
+					case ok:
+						fmt.Fprintf(out, "%s %d result done\n", b.id, step)
+					default:
+						fmt.Fprintf(out, "%s %d result notdone\n", b.id, step)
+					}
+					c.snapshot(step, sol)
+					step++
+					continue
+				}
+				if st, isStops := top.(nextroute.SolutionPlanStopsUnit); isStops {
+					fs = []string{"op", "unplan", strconv.Itoa(st.ModelPlanStopsUnit().Stops()[0].Index())}
+				} else {
+					fs = []string{"op", "unplan", strconv.Itoa(keys[r%len(keys)])}
+				}
+			}
+			if fs[1] == "munplanr" {
+				// un-plan a planned MEMBER stops unit of some group on its own
+				var keys []int
+				for _, pu := range c.model.PlanStopsUnits() {
+					if _, isMember := pu.PlanUnitsUnit(); isMember && sol.SolutionPlanStopsUnit(pu).IsPlanned() {
+						keys = append(keys, unitKey(pu))
+					}
+				}
+				sort.Ints(keys)
+				if len(keys) == 0 {
+					fmt.Fprintf(out, "%s %d result noop\n", b.id, step)
+					c.snapshot(step, sol)
+					step++
+					continue
+				}
+				r, _ := strconv.Atoi(fs[2])
 				fs = []string{"op", "unplan", strconv.Itoa(keys[r%len(keys)])}
+			}
+			if fs[1] == "vunplanr" {
+				r, _ := strconv.Atoi(fs[2])
+				vs := sol.Vehicles()
+				ok, err := vs[r%len(vs)].Unplan()
+				switch {
+				case err != nil:
+					fmt.Fprintf(out, "%s %d result error\n", b.id, step)
+				case ok:
+					fmt.Fprintf(out, "%s %d result done\n", b.id, step)
+				default:
+					fmt.Fprintf(out, "%s %d result notdone\n", b.id, step)
+				}
+				c.snapshot(step, sol)
+				step++
+				continue
 			}
 			switch fs[1] {
 			case "plan", "planchecked":
